@@ -97,6 +97,20 @@ impl PartialEq for RustConst {
     }
 }
 
+impl Eq for RustConst {}
+
+impl PartialOrd for RustConst {
+    fn partial_cmp(&self, other: &Self) -> Option<std::cmp::Ordering> {
+        Some(self.cmp(other))
+    }
+}
+
+impl Ord for RustConst {
+    fn cmp(&self, other: &Self) -> std::cmp::Ordering {
+        self.id.original.cmp(&other.id.original)
+    }
+}
+
 /// A constant expression that can be shared via a constant variable across the typeshare
 /// boundary.
 #[derive(Debug, Clone)]
